@@ -21,6 +21,19 @@ static std::string cipher_log(bool enc)
 	for (auto &c : cryptolog.ciphers) { if (c.encrypt != enc) continue; if (r.size() > 1) r += ","; r += hexs(c.in) + ":" + hexs(c.out); }
 	return r + "]";
 }
+// back-pressure: when the non-blocking sender finds its pipe full it calls sleep(1) and retries; the harness
+// turns that sleep into "the receiver makes progress" (forward the bytes, let B receive), without waiting
+#include <dlfcn.h>
+#include <functional>
+static std::function<void()> g_sleep_hook;
+static size_t g_sleep_calls = 0;
+extern "C" unsigned int sleep(unsigned int sec)
+{
+	if (g_sleep_hook) { g_sleep_calls++; g_sleep_hook(); return 0; }
+	static unsigned int (*real)(unsigned int) = (unsigned int (*)(unsigned int))dlsym(RTLD_NEXT, "sleep");
+	return real ? real(sec) : 0;
+}
+
 static void set_nonblock(int fd) { int fl = fcntl(fd, F_GETFL); fcntl(fd, F_SETFL, fl | O_NONBLOCK); }
 static std::string drain(int fd) { std::string r; char b[8192]; for (;;) { ssize_t k = read(fd, b, sizeof b); if (k <= 0) break; r.append(b, k); } return r; }
 
@@ -159,6 +172,29 @@ static int drv_aio(const Opts &o)
 		// ---- whole-scenario facts for the property predicate
 		size_t good_prefix = 0; { size_t off = 0; for (size_t i = 0; i < wires.size(); i++) { off += wires[i].size(); if (off <= first_bad) good_prefix = i + 1; } }
 		emit(std::string("prop.aio ") + (auth ? "1 " : "0 ") + (enc ? "1 " : "0 ") + (chunked ? "1 " : "0 ") + (nb ? "nonblock " : "select ") + tname + " " + std::to_string(good_prefix) + " " + zlist(sent.begin(), sent.end()) + " => " + zlist(got.begin(), got.end()));
+	}
+	// ---- back-pressure on the non-blocking class: the sender's pipe is small and fills up; every message for
+	// which Send() returned true must arrive, in order (untampered stream)
+	for (int mode = 0; mode < 2; mode++) {
+		bool auth = mode == 1, enc = mode == 1;
+		Chan ch(auth, enc, false, true);
+		fcntl(ch.a2h[1], F_SETPIPE_SZ, 4096); set_nonblock(ch.h2b[1]);
+		std::vector<Z> sent, got; std::string pending;
+		auto pump = [&]() {
+			pending += drain(ch.a2h[0]);
+			while (!pending.empty()) { ssize_t k = write(ch.h2b[1], pending.data(), pending.size()); if (k <= 0) break; pending.erase(0, (size_t)k); }
+			for (int idle = 0; idle < 2; ) { Z m; size_t i_out = 0; if (ch.B->Receive(m, i_out, aiounicast::aio_scheduler_direct, 0)) { got.push_back(m); idle = 0; } else idle++; }
+		};
+		g_sleep_calls = 0; g_sleep_hook = pump;
+		size_t nmsg = 20 + g.below(12);
+		for (size_t i = 0; i < nmsg; i++) {
+			Z m; gen_bits(m, g, (i % 5 == 4) ? 64 : 9000 + g.below(2500)); if (!enc && g.below(7) == 0) mpz_neg(m, m);
+			if (ch.A->Send(m, 1, 30)) sent.push_back(m);
+		}
+		g_sleep_hook = nullptr;
+		for (int k = 0; k < 50 && (k < 3 || !pending.empty()); k++) pump();
+		emit(std::string("prop.aio.backpressure ") + (auth ? "1 " : "0 ") + (enc ? "1 " : "0 ") + std::to_string(nmsg) + " " + std::to_string(g_sleep_calls) + " => " + (g_sleep_calls ? "exercised" : "NOT-EXERCISED"));
+		emit(std::string("prop.aio ") + (auth ? "1 " : "0 ") + (enc ? "1 " : "0 ") + "0 nonblock none " + std::to_string(sent.size()) + " " + zlist(sent.begin(), sent.end()) + " => " + zlist(got.begin(), got.end()));
 	}
 	cryptolog.log = false;
 	return 0;
